@@ -1452,6 +1452,14 @@ func (ro *RedisOutput) bisyncStartPoint(ctx context.Context, runIDs []string) (S
 		ro.logger.Infof("bisync startpoint parallel: checkpoint(%s), slots(%d), snapshot(%+v), records(%d), minSeq(%d), runIDs(%v)", checkpointName, len(slots), snapshot, len(records), minSeq, runIDs)
 		frontier, err := checkpoint.RebuildBisyncFrontier(snapshot, records)
 		bisyncFrontierRebuildGauge.Set(time.Since(begin).Seconds(), ro.cfg.InputName)
+		if err != nil && snapshot == nil && errors.Is(err, checkpoint.ErrBisyncJournalGap) {
+			// Lanes complete out of order: a stop can leave journal records of later units
+			// while the first unit after the root checkpoint was never committed. The
+			// contiguous committed prefix is then empty, which is the root checkpoint itself;
+			// the records stay and are overwritten when their units are replayed.
+			ro.logger.Warnf("bisync startpoint parallel journal does not start at the root checkpoint: checkpoint(%s), records(%d), err(%v)", checkpointName, len(records), err)
+			frontier, err = nil, nil
+		}
 		if err != nil {
 			return sp, 0, false, err
 		}
